@@ -1,5 +1,7 @@
 package main
 
+import "time"
+
 // Registry of checks: one entry per claimed property.
 
 func init() {
@@ -76,6 +78,99 @@ func init() {
 			{Name: "VxC32", Pkg: "github.com/goplus/xgo/tpl/scanner", Files: []string{"c32/c32.go"},
 				Quick: map[string]int{"N": 2, "ASCII": 1}, Thorough: map[string]int{"N": 3, "ASCII": 1},
 				Variants: c15Variants(41), MaxSteps: 600_000},
+		},
+	})
+
+	// ---------------------------------------------------------------- C33
+	register(&checkSpec{
+		ID:   "C33",
+		Rule: "the token value is one symbolic integer over the whole int/uint range; the engine forks over the token tables as they exist in the tree (String/Len/ForEach/IsOperator/IsKeyword/Precedence executed from go/ssa); each spelled token is pushed through the real scanner",
+		Assumptions: []string{
+			"complete for the token tables of the working tree (finite); the scanners run on concrete spellings here (their behaviour on arbitrary bytes is C15/C16/C32)",
+			"XGo: 'operator and keyword tokens' = IsOperator() || IsKeyword(); TPL: single-character tokens above ' ' with a one-byte spelling plus the ForEach range",
+			"after the spelled token one inserted semicolon is allowed before EOF",
+		},
+		Harnesses: []harnessSpec{
+			{Name: "VxC33XGo", Pkg: "github.com/goplus/xgo/scanner", Files: []string{"c33/c33_xgo.go"}, Quick: map[string]int{"KF_TILDE": 0}},
+			{Name: "VxC33TPL", Pkg: "github.com/goplus/xgo/tpl/scanner", Files: []string{"c33/c33_tpl.go"}, Quick: map[string]int{}},
+		},
+	})
+
+	// ---------------------------------------------------------------- C27
+	register(&checkSpec{
+		ID:   "C27",
+		Rule: "grammar text = concrete frame P (20 frames: rule bodies, quoted/char/raw literals, escapes, parentheses, operators, lambda) around a window of <= N symbolic bytes; the real tpl.New (tpl/parser + tpl/scanner + tpl/cl + strconv.Unquote*) runs on it; any escaping panic is the violation",
+		Assumptions: []string{
+			"bound: window of <= N bytes (ASCII) inside each frame; longer malformed regions are outside the claim",
+			"stubs: fmt.Sprintf/Errorf (message text), os.Stderr writes",
+		},
+		Harnesses: []harnessSpec{
+			{Name: "VxC27", Pkg: "github.com/goplus/xgo/tpl", Files: []string{"c27/c27.go"},
+				Quick: map[string]int{"N": 2, "ASCII": 1}, Thorough: map[string]int{"N": 3, "ASCII": 1},
+				Variants: c15Variants(20), MaxSteps: 2_000_000},
+		},
+	})
+	// ---------------------------------------------------------------- C28 / C29
+	tplFiles := []string{"c28/tplgen.go", "c28/c28.go", "c28/c29.go"}
+	register(&checkSpec{
+		ID:   "C28",
+		Rule: "grammars are generated from symbolic selectors (the engine forks over them; alphabet IDENT INT \"+\" \"\" \"x\" rule-reference self-reference, combinators sequence choice * + ? % ++ up to depth D), compiled by the real tpl.New from text, and matched by the real Compiler.Match on up to NTOK symbolic tokens (kind, literal, adjacency symbolic) delivered through the Config.Scanner interface; a path that exceeds the instruction/call-depth budget is non-termination",
+		Assumptions: []string{
+			"bound: expression depth D over ATOMS atoms (LEAFBIN=1: right operand of a binary combinator is an atom), NB variants of the second rule, NTOK tokens; instruction budget 300000 and call depth 4000 per path, far above any terminating match at these sizes (largest terminating path is in evidence)",
+			"token stream stub: tokens come from a harness type implementing tpl.Scanner (the scanners are C15/C32's subject)",
+		},
+		Harnesses: []harnessSpec{
+			{Name: "VxC28", Pkg: "github.com/goplus/xgo/tpl", Files: tplFiles,
+				Quick: map[string]int{"D": 1, "ATOMS": 7, "LEAFBIN": 1, "NB": 4, "NTOK": 2}, Thorough: map[string]int{"D": 1, "ATOMS": 7, "LEAFBIN": 0, "NB": 4, "NTOK": 3},
+				BudgetViolation: true, MaxSteps: 300_000, ReplayTimeout: 8 * time.Second},
+			{Name: "VxC28", Pkg: "github.com/goplus/xgo/tpl", Files: tplFiles,
+				Quick: map[string]int{"D": 2, "ATOMS": 7, "LEAFBIN": 1, "NB": 1, "NTOK": 1}, Thorough: map[string]int{"D": 2, "ATOMS": 7, "LEAFBIN": 1, "NB": 3, "NTOK": 2},
+				BudgetViolation: true, MaxSteps: 300_000, ReplayTimeout: 8 * time.Second},
+		},
+	})
+	register(&checkSpec{
+		ID:   "C29",
+		Rule: "same grammar generator and symbolic token inputs as C28; the real matcher's outcome (success/failure, tokens consumed, result tree with tokens compared by identity) is compared with a reference matcher written in the harness from tpl/README.md (ordered choice, greedy repetition without backtracking, n-element sequence lists, nil for absent options, [r,[[sep,r]...]] for R1 % R2, pairs and touching tokens for R1 ++ R2)",
+		Assumptions: []string{
+			"bound: as C28 (D, ATOMS, NB, NTOK in evidence); grammars for which the README gives no meaning (repetition of an operand that can match empty, unbounded recursion) are skipped here and covered by C28",
+			"the reference matcher (harness/c28/tplgen.go) is the oracle; before the choice repair it agreed with the implementation everywhere except the recorded class",
+		},
+		Harnesses: []harnessSpec{
+			{Name: "VxC29", Pkg: "github.com/goplus/xgo/tpl", Files: tplFiles,
+				Quick: map[string]int{"D": 1, "ATOMS": 6, "LEAFBIN": 1, "NB": 2, "NTOK": 3}, Thorough: map[string]int{"D": 1, "ATOMS": 7, "LEAFBIN": 0, "NB": 4, "NTOK": 4},
+				MaxSteps: 300_000},
+			{Name: "VxC29", Pkg: "github.com/goplus/xgo/tpl", Files: tplFiles,
+				Quick: map[string]int{"D": 2, "ATOMS": 4, "LEAFBIN": 1, "NB": 1, "NTOK": 1}, Thorough: map[string]int{"D": 2, "ATOMS": 6, "LEAFBIN": 1, "NB": 2, "NTOK": 2},
+				MaxSteps: 300_000},
+		},
+	})
+
+	// ---------------------------------------------------------------- C30
+	register(&checkSpec{
+		ID:   "C30",
+		Rule: "match results of R % sep with up to M separators, symbolic operands and separator tokens; the combining callback is an uninterpreted function, so the assertion 'result == left-nested application term' must hold for every interpretation; calculator: README grammar compiled by the real tpl.New and evaluated on up to NTOK symbolic tokens against a precedence-climbing evaluator",
+		Assumptions: []string{
+			"bound: lists of at most M separators (nested lists to depth 1, one nested operand, at most 2 inner separators); calculator inputs of at most NTOK tokens over {digit + - * / ( )}, integer arithmetic instead of floats, division by zero yields 0 on both sides",
+			"uninterpreted functions f (combiner) and g (ListOp mapper): z3's UF theory; natively replayed with a fixed hash function",
+			"token stream stub for the calculator (tokens delivered through Config.Scanner)",
+		},
+		Harnesses: []harnessSpec{
+			{Name: "VxC30Fold", Pkg: "github.com/goplus/xgo/tpl", Files: []string{"c30/c30.go"}, Quick: map[string]int{"M": 4}, Thorough: map[string]int{"M": 7}},
+			{Name: "VxC30Nested", Pkg: "github.com/goplus/xgo/tpl", Files: []string{"c30/c30.go"}, Quick: map[string]int{"M": 3}, Thorough: map[string]int{"M": 5}},
+			{Name: "VxC30Expr", Pkg: "github.com/goplus/xgo/tpl", Files: []string{"c30/c30.go"}, Quick: map[string]int{"M": 4}, Thorough: map[string]int{"M": 7}},
+			{Name: "VxC30Calc", Pkg: "github.com/goplus/xgo/tpl", Files: []string{"c30/c30.go"}, Quick: map[string]int{"NTOK": 4}, Thorough: map[string]int{"NTOK": 6}, MaxSteps: 2_000_000},
+		},
+	})
+	// ---------------------------------------------------------------- C31
+	register(&checkSpec{
+		ID:   "C31",
+		Rule: "rule bodies of up to NTOK tokens whose kinds are symbolic selectors over {IDENT STRING * + ? % ++ | ( )} (all sequences, the engine forks over them), rendered to text and parsed by the real tpl/parser + tpl/scanner; compared with a reference precedence parser (unary > ++ > % > sequence > |) written in the harness",
+		Assumptions: []string{
+			"bound: every token sequence of length <= NTOK over the 10-token expression alphabet; longer expressions are outside the claim",
+			"tokens are rendered with single blanks between them (lexing is C15/C32's subject)",
+		},
+		Harnesses: []harnessSpec{
+			{Name: "VxC31", Pkg: "github.com/goplus/xgo/tpl/parser", Files: []string{"c31/c31.go"}, Quick: map[string]int{"NTOK": 4}, Thorough: map[string]int{"NTOK": 5}},
 		},
 	})
 }
